@@ -69,7 +69,21 @@ func VerifC03Script() {
 	}
 	failAt := verifIntRange("failing-callback", -1, verifParam("maxfail", 0)) // index of the callback invocation that fails
 
+	// connection compression: result and totals blocks then arrive as checksummed frames, telemetry
+	// blocks (logs, profile events) never do
+	compressed := verifParam("compressed", 0) == 1
 	var script rb
+	srvBlock := func(code byte, cols []rCol) {
+		if !compressed {
+			script.srvData(code, cols, v)
+			return
+		}
+		script.uv(uint64(code))
+		script.str("")
+		var body rb
+		body.block0(cols, v)
+		script.frame(body.b)
+	}
 	var want []vEvent
 	ended := false     // EndOfStream sent
 	exception := false // exception sent
@@ -85,7 +99,7 @@ func VerifC03Script() {
 			rows := verifIntRange("rows", -1, 1)
 			if rows < 0 {
 				// the empty end marker (no columns, no rows): never delivered to the callback
-				script.srvData(code, nil, v)
+				srvBlock(code, nil)
 				continue
 			}
 			col := rCol{name: "a", typ: "UInt64"}
@@ -95,7 +109,7 @@ func VerifC03Script() {
 				col.u64 = append(col.u64, x)
 				ev.cell = x
 			}
-			script.srvData(code, []rCol{col}, v)
+			srvBlock(code, []rCol{col})
 			want = append(want, ev)
 		case pkProgress:
 			p := proto.Progress{Rows: uint64(verifU8("p.rows") & 0x7f), Bytes: uint64(verifU8("p.bytes") & 0x7f), TotalRows: uint64(verifU8("p.total") & 0x7f)}
@@ -164,7 +178,11 @@ func VerifC03Script() {
 		}
 	}
 	conn := vNewConn(script.b)
-	c := vNewClient(conn, v, proto.CompressionDisabled, compress.None, nil)
+	compression := proto.CompressionDisabled
+	if compressed {
+		compression = proto.CompressionEnabled
+	}
+	c := vNewClient(conn, v, compression, compress.None, nil)
 	var got []vEvent
 	calls := 0
 	failed := false
